@@ -147,13 +147,18 @@ async def new_gateway(*, eavesdrop: bool = False, max_zones: int | None = None,
 
 
 def validate(schema: dict) -> str:
-    """'' if the library's own validator accepts shrink(schema), else the error text."""
+    """'' if the library's own validator accepts the schema - both shrunk (as the library saves it) and as it is
+    reported - else the error text."""
     from ramses_rf.helpers import shrink
     from ramses_rf.schemas import SCH_GLOBAL_SCHEMAS
     try:
         SCH_GLOBAL_SCHEMAS(shrink(schema))
     except Exception as err:  # noqa: BLE001
         return f"{type(err).__name__}: {str(err)[:200]}"
+    try:    # ... and as it is reported (with its empty containers and None placeholders)
+        SCH_GLOBAL_SCHEMAS(schema)
+    except Exception as err:  # noqa: BLE001
+        return f"as-reported:{type(err).__name__}: {str(err)[:200]}"
     return ""
 
 
